@@ -297,6 +297,15 @@ def oracle(case):
             back = H.http_to_time(text)
             if back != ts:
                 return [Violation("c18-date", case, "time_to_http(%d) = %r parses back to %r" % (ts, text, back))]
+            # an instant with a fraction belongs to the second it lies in (one-second resolution), also just before the next
+            if ts < 2 ** 31:
+                for frac in (0.25, 0.5, 0.9999995, 0.99999999):
+                    f = ts + frac
+                    if int(f) != ts:
+                        continue
+                    ft = H.time_to_http(f)
+                    if ft != text:
+                        return [Violation("c18-date-float", case, "time_to_http(%r) = %r, the second %d is %r" % (f, ft, ts, text))]
             return []
     except Exception as err:
         return [Violation("c18-raises:" + t[1], case, "raised %r (parsers must accept any string)" % (err,))]
